@@ -24,6 +24,33 @@ class TupleVal(tuple):
     sees the join of the items."""
 
 
+class RecVal(TupleVal):
+    """A NamedTuple instance of the repository: a TupleVal whose items can also be read by field name."""
+
+    fields: tuple = ()
+
+    @classmethod
+    def make(cls, fields, vals):
+        r = cls(vals)
+        r.fields = tuple(fields)
+        return r
+
+
+def _namedtuple_fields(cls: ClassInfo):
+    """(field names, default expressions) of a repository class derived from typing.NamedTuple; None for other classes."""
+    if cls is None or cls.methods.get("__new__") or cls.methods.get("__init__"):
+        return None
+    if not any(isinstance(b, str) and b.split(".")[-1] == "NamedTuple" for b in cls.bases):
+        return None
+    fields, defaults = [], {}
+    for st_ in cls.node.body:
+        if isinstance(st_, ast.AnnAssign) and isinstance(st_.target, ast.Name):
+            fields.append(st_.target.id)
+            if st_.value is not None:
+                defaults[st_.target.id] = st_.value
+    return (fields, defaults) if fields else None
+
+
 class Domain:
     """Override in rule modules.  Values must be hashable."""
 
@@ -139,6 +166,15 @@ class Engine:
         return v
 
     def join(self, a, b):
+        if isinstance(a, RecVal) or isinstance(b, RecVal):
+            # records of the same type are joined field by field; None (the other arm of an Optional result) is left out
+            if isinstance(a, RecVal) and isinstance(b, RecVal) and a.fields == b.fields:
+                return RecVal.make(a.fields, [self.join(x, y) for x, y in zip(a, b)])
+            none = self.dom.const(None)
+            if isinstance(a, RecVal) and (b is None or b == none):
+                return a
+            if isinstance(b, RecVal) and (a is None or a == none):
+                return b
         a, b = self.collapse(a), self.collapse(b)
         if a is None:
             return b
@@ -276,7 +312,7 @@ class Engine:
         if isinstance(st, ast.Expr):
             self.expr(st.value, fr)
         elif isinstance(st, ast.Assign):
-            v = self.expr(st.value, fr, keep_tuple=any(isinstance(t, (ast.Tuple, ast.List)) for t in st.targets))
+            v = self.expr(st.value, fr, keep_tuple=any(isinstance(t, (ast.Tuple, ast.List)) for t in st.targets), keep_rec=True)
             for t in st.targets:
                 self.assign(t, v, fr, st)
         elif isinstance(st, ast.AnnAssign):
@@ -292,7 +328,7 @@ class Engine:
                 v = self.dom.top()
             self.assign(st.target, v, fr, st)
         elif isinstance(st, ast.Return):
-            v = self.expr(st.value, fr) if st.value is not None else self.dom.const(None)
+            v = self.expr(st.value, fr, keep_rec=True) if st.value is not None else self.dom.const(None)
             fr.ret = self.join(fr.ret, v)
         elif isinstance(st, ast.If):
             self.expr(st.test, fr)
@@ -366,9 +402,11 @@ class Engine:
                     self.expr(n, fr)
 
     def assign(self, target, value, fr: Frame, stmt=None):
-        if not isinstance(target, (ast.Tuple, ast.List)):
+        if not isinstance(target, (ast.Tuple, ast.List)) and not (isinstance(value, RecVal) and isinstance(target, ast.Name)):
             value = self.collapse(value)
         if isinstance(target, ast.Name):
+            for k in [k for k in fr.env if k.startswith(target.id + ".")]:
+                del fr.env[k]  # what was known about fields of the previous value
             globs = _globals_of(fr.func)
             if target.id in globs:
                 fr.env["<global>" + target.id] = value
@@ -397,8 +435,10 @@ class Engine:
                 fr.inst[base.attr] = self.join(cur, self.dom.container([value]))
 
     # ----------------------------------------------------------- expressions
-    def expr(self, node, fr: Frame, keep_tuple: bool = False):
+    def expr(self, node, fr: Frame, keep_tuple: bool = False, keep_rec: bool = False):
         v = self._expr(node, fr)
+        if isinstance(v, RecVal) and (keep_rec or keep_tuple):
+            return v
         if isinstance(v, TupleVal) and not keep_tuple:
             return self.collapse(v)
         return v
@@ -485,7 +525,13 @@ class Engine:
                 if res[0] == "classattr":
                     a = self.prog.class_attr(res[1], res[2])
                     return self.expr(a, Frame(_module_pseudo(res[1].module), None, {}, (), 0))
-        recv = self.expr(node.value, fr)
+        if d and d in fr.env:
+            return fr.env[d]  # a field of a local record that a test has told something about
+        recv = self.expr(node.value, fr, keep_rec=True)
+        if isinstance(recv, RecVal):
+            if node.attr in recv.fields:
+                return recv[recv.fields.index(node.attr)]
+            recv = self.collapse(recv)
         v = self.dom.attr(recv, node.attr, node, self, fr)
         if v is not None:
             return v
@@ -741,6 +787,17 @@ class Engine:
         args = [self.expr(a.value if isinstance(a, ast.Starred) else a, fr) for a in node.args]
         kws = {k.arg: self.expr(k.value, fr) for k in node.keywords}
         self.dom.on_call(target, node, recv, args, kws, self, fr)
+        if target.kind == "ctor" and target.cls is not None and not any(isinstance(a, ast.Starred) for a in node.args) \
+                and all(k.arg is not None for k in node.keywords):
+            nt = _namedtuple_fields(target.cls)
+            if nt is not None and len(args) <= len(nt[0]) and all(k in nt[0] for k in kws):
+                vals = {f: v for f, v in zip(nt[0], args)}
+                vals.update(kws)
+                for f in nt[0]:
+                    if f not in vals and f in nt[1]:
+                        vals[f] = self.expr(nt[1][f], Frame(_module_pseudo(target.cls.module), None, {}, (), 0))
+                if all(f in vals for f in nt[0]):
+                    return RecVal.make(nt[0], [self.collapse(vals[f]) for f in nt[0]])
         if target.kind in ("repo", "ctor") and target.funcs:
             skip = self.dom.call_repo(target, node, recv, args, kws, self, fr)
             if skip is not None:
